@@ -33,6 +33,21 @@ func registerStd(e *Engine) {
 	})
 	e.reg("time.runtimeNano", func(e *Engine, st *State, cc *CallCtx) (Value, bool) { return c.Const(1000000000, 64), true })
 	e.reg("time.registerLoadFromEmbeddedTZData", nop)
+	// bytes.Compare / bytes.Equal on byte slices as terms
+	e.reg("bytes.Compare", func(e *Engine, st *State, cc *CallCtx) (Value, bool) {
+		a := e.sliceToStr(st, cc.Args[0].(SliceV))
+		b := e.sliceToStr(st, cc.Args[1].(SliceV))
+		if a.Conc && b.Conc {
+			return c.Const(uint64(int64(strings.Compare(a.S, b.S))), 64), true
+		}
+		lt, eq := e.strLess(st, a, b)
+		return c.Ite(lt, c.Const(^uint64(0), 64), c.Ite(eq, c.Const(0, 64), c.Const(1, 64))), true
+	})
+	e.reg("bytes.Equal", func(e *Engine, st *State, cc *CallCtx) (Value, bool) {
+		a := e.sliceToStr(st, cc.Args[0].(SliceV))
+		b := e.sliceToStr(st, cc.Args[1].(SliceV))
+		return e.strEq(st, a, b), true
+	})
 	// sync.Pool: LIFO model (Get returns the most recently Put item if any, else New())
 	poolKey := func(p Ptr) int { return -(p.Obj*64 + len(p.Path) + 1000000) }
 	e.reg("(*sync.Pool).Put", func(e *Engine, st *State, cc *CallCtx) (Value, bool) {
